@@ -72,6 +72,7 @@ type c13Outcome struct {
 	Kept       int      // components that had to be kept
 	Recreated  int      // components present before and after with a different identity
 	Excluded   []string // known-finding keys that suppressed an assertion
+	Wired      int      // (component, field) pairs compared with the configuration by the wiring check
 }
 
 func c13APIPort(m map[string]any) int {
@@ -227,6 +228,17 @@ func c13RunOnce(t c13TB, ch *c13Change, mode string) c13Outcome {
 			for _, d := range c13DiffMap("registered reference", a.BackRefs, b.BackRefs, "after-reload", "fresh-start") {
 				out.Violations = append(out.Violations, role+": "+d)
 			}
+		}
+	}
+
+	// ---- (C) wiring: component fields named like a configuration field carry that field's new value
+	if cf, err := vcLoadConf(c13JSON(ch.New)); err != nil {
+		t.Fatalf("harness: new configuration does not load: %v", err)
+	} else {
+		mism, n := c13WiringCheck(sNew, cf)
+		out.Wired = n
+		for _, m := range mism {
+			out.Violations = append(out.Violations, "fresh start: "+m)
 		}
 	}
 
